@@ -284,6 +284,14 @@ func describe2(c *v2.Client, name string) (string, error) {
 func VerifC17Catalogue() {
 	k := nd.Param("k", 2)
 	c1, c2 := v1.NewClient(), v2.NewClient()
+	if nd.Param("rich", 1) == 1 && nd.Choice("start", 2) == 1 {
+		// a reachable starting point with two global indexes of different shape (on g, and on g + h): an item that
+		// has g but no h belongs to one of them only, so the two indexes report different item counts
+		nd.Reach("rich-start")
+		nd.Assert(v1.AddTable(c1, tbl, "p", "") == nil && v2.AddTable(ctx, c2, tbl, "p", "") == nil, "C17c-start-create")
+		nd.Assert(v1.AddIndex(c1, tbl, "gsi", "g", "") == nil && v2.AddIndex(ctx, c2, tbl, "gsi", "g", "") == nil, "C17c-start-addindex")
+		nd.Assert(v1.AddIndex(c1, tbl, "late", "g", "h") == nil && v2.AddIndex(ctx, c2, tbl, "late", "g", "h") == nil, "C17c-start-addindex2")
+	}
 	for step := 0; step < k; step++ {
 		nm := "s" + string(rune('0'+step))
 		var err1, err2 error
@@ -469,13 +477,19 @@ func VerifC17Batch() {
 	}
 	n := nd.Int("count", 0, 27)
 	last := nd.Choice("last-request", 4)
+	// the odd request is the last one of the batch or the first one (with two tables: in the table walked first,
+	// with well-formed requests for the other table after it)
+	oddAt := n - 1
+	if n >= 2 && last >= 1 && nd.Choice("odd-request-first", 2) == 1 {
+		oddAt = 0
+	}
 	r1 := []*ddb1.WriteRequest{}
 	r2 := []types2.WriteRequest{}
 	for i := 0; i < n; i++ {
 		k := "k" + string(rune('a'+i))
 		a := &ddb1.WriteRequest{PutRequest: &ddb1.PutRequest{Item: item1{"p": s1(k)}}}
 		b := types2.WriteRequest{PutRequest: &types2.PutRequest{Item: item2{"p": s2(k)}}}
-		if i == n-1 {
+		if i == oddAt {
 			switch last {
 			case 1:
 				a = &ddb1.WriteRequest{DeleteRequest: &ddb1.DeleteRequest{Key: item1{"p": s1(k)}}}
